@@ -266,5 +266,7 @@ func runC02(r *Run) {
 	upstreamScenarios02(r)
 	// ---- connections with a history: more than 65536 queries over one connection; a slow in-time reply on a reused connection (c02long.go)
 	longScenarios02(r, &connID)
-	r.Finish("transports {TraditionalDnsConn datagram / stream, PipelineTransport datagram / stream, ReuseConnTransport} x arrival {inside Write (Write returns after the reader consumed it), inside Write followed by EOF, after the caller parked, after parked followed at once by EOF, the same two with EOF returned by the very Read call that returns the last bytes of the reply (stream connections), 2..7 concurrent callers each inside Write, a reply 0.7 s after the query while the reader's deadline update was held back (idle timeout 0.3 s)} x repetitions; DoQ streams; {PipelineTransport, lazy connection over datagram / stream / DoQ} x 1..4 callers queued while the connection is dialing (+ one on the fast path), DialTimeout option 150..250 ms, reply later than dial time + DialTimeout and seconds before the caller's deadline; DoH upstream over a scripted body (one piece, single bytes, header | rest, all-but-last | last, random; with / without Content-Length; EOF with the last piece or alone; 29..65535 bytes) and over net/http against a loopback server (HTTP/1.1, h2) that flushes between pieces, 1..3 concurrent callers; DoQ with the connection's context ended by the peer {inside the Read call that hands out the last byte of the last outstanding reply, concurrently with the readers, up to 0.4 ms later, never} x {QuicDnsConn with 1..3 callers, PipelineTransport}; upstream.NewUpstream {tcp, tcp+pipeline, tls, tls+pipeline} x {TLS 1.2, 1.3} x {EventObserver set, not set} x server {reply and close / close_notify in one tcp write, reply then close, stays open} x {reply in one write, length | message}, 1..3 queries one after the other; long-lived connections {TraditionalDnsConn, PipelineTransport} x {datagram, stream}: 65536 + 8..31 (thorough: also 131072 + ..) queries one after the other over ONE connection, each answered from inside Write, the last 8..31 (around and past the turn of the 16-bit id counter) inside Write / inside Write with Write returning after the reader consumed it / 2 ms after Write: every one must return its own reply (replayed on the id-table model: op ids); {PipelineTransport datagram / stream, ReuseConnTransport} on a connection that already served 1..3 queries: reply after 55..70 % of the caller's deadline (1.5..1.8 s), checked when the reader took it off the connection at least 250 ms before the deadline: the exchange must return it, without waiting for a retransmission; every case is non-trivial; each is replayed on the model as the schedule it enforces (DoH: the pieces the Read calls returned)")
+	// ---- datagram connections that also carry datagrams which are no reply (runts, empty, unknown ids) in front of the reply (c02junk.go)
+	junkScenarios02(r, &connID)
+	r.Finish("transports {TraditionalDnsConn datagram / stream, PipelineTransport datagram / stream, ReuseConnTransport} x arrival {inside Write (Write returns after the reader consumed it), inside Write followed by EOF, after the caller parked, after parked followed at once by EOF, the same two with EOF returned by the very Read call that returns the last bytes of the reply (stream connections), 2..7 concurrent callers each inside Write, a reply 0.7 s after the query while the reader's deadline update was held back (idle timeout 0.3 s)} x repetitions; DoQ streams; {PipelineTransport, lazy connection over datagram / stream / DoQ} x 1..4 callers queued while the connection is dialing (+ one on the fast path), DialTimeout option 150..250 ms, reply later than dial time + DialTimeout and seconds before the caller's deadline; DoH upstream over a scripted body (one piece, single bytes, header | rest, all-but-last | last, random; with / without Content-Length; EOF with the last piece or alone; 29..65535 bytes) and over net/http against a loopback server (HTTP/1.1, h2) that flushes between pieces, 1..3 concurrent callers; DoQ with the connection's context ended by the peer {inside the Read call that hands out the last byte of the last outstanding reply, concurrently with the readers, up to 0.4 ms later, never} x {QuicDnsConn with 1..3 callers, PipelineTransport}; upstream.NewUpstream {tcp, tcp+pipeline, tls, tls+pipeline} x {TLS 1.2, 1.3} x {EventObserver set, not set} x server {reply and close / close_notify in one tcp write, reply then close, stays open} x {reply in one write, length | message}, 1..3 queries one after the other; long-lived connections {TraditionalDnsConn, PipelineTransport} x {datagram, stream}: 65536 + 8..31 (thorough: also 131072 + ..) queries one after the other over ONE connection, each answered from inside Write, the last 8..31 (around and past the turn of the 16-bit id counter) inside Write / inside Write with Write returning after the reader consumed it / 2 ms after Write: every one must return its own reply (replayed on the id-table model: op ids); {PipelineTransport datagram / stream, ReuseConnTransport} on a connection that already served 1..3 queries: reply after 55..70 % of the caller's deadline (1.5..1.8 s), checked when the reader took it off the connection at least 250 ms before the deadline: the exchange must return it, without waiting for a retransmission; datagram connections {TraditionalDnsConn, PipelineTransport} with 1..4 datagrams that are no reply {1..11 bytes, empty, first 1..11 bytes of the reply, header / message with an id nobody waits for} in front of the reply x {inside Write, between query and reply while the caller is parked, on the idle socket before the next query, 2..5 concurrent callers} (a Read cuts the datagram to the buffer it is given) and upstream.NewUpstream(udp://) against a loopback udp server sending the same in front of every reply: the reply must be returned (the reader's Reads replayed on the model: op udprd); every case is non-trivial; each is replayed on the model as the schedule it enforces (DoH: the pieces the Read calls returned)")
 }
